@@ -232,7 +232,7 @@ int main(int argc, char** argv) {
   std::vector<pbt::Prop> props;
   props.push_back({"enum_basis3", propEnumBasis, 0, 0, true, false, "X1 + three terms, every definition from {empty, X1, Da, Db, Da∪Db}, every selection: basis"});
   props.push_back({"enum_maxpart3", propEnumMaxPart, 0, 0, true, false, "X1 + three terms, every definition from {empty, X1, Da, Db, Da∪Db}, every selection: maximal part"});
-  props.push_back({"basis", propBasis, 1500, 30000, false, false, "random schemas (list order decoupled from dependencies), random selections: OpExtractBasis"});
-  props.push_back({"maxpart", propMaxPart, 1500, 30000, false, false, "random schemas (list order decoupled from dependencies), random selections: OpMaxPart"});
+  props.push_back({"basis", propBasis, 1500, 24000, false, false, "random schemas (list order decoupled from dependencies), random selections: OpExtractBasis"});
+  props.push_back({"maxpart", propMaxPart, 1500, 24000, false, false, "random schemas (list order decoupled from dependencies), random selections: OpMaxPart"});
   return pbt::main(argc, argv, "C13", props);
 }
